@@ -55,7 +55,9 @@ PLAN = {
     "C13": dict(quick=96, thorough=4800, timeout=240, space=48), "C14": dict(quick=160, thorough=8000, timeout=240),
     "C23": dict(quick=160, thorough=8000, timeout=240), "C26": dict(quick=160, thorough=8000, timeout=240, extra=[("C26S", dict(quick=120, thorough=6000, timeout=240))]),
     "C34": dict(quick=20000, thorough=1000000, timeout=60),
-    "C37": dict(quick=5000, thorough=500000, timeout=120),
+    # (a corrupt IVF frame header makes ivfreader allocate up to 4 GiB per frame; cheap on an idle machine,
+    # slow when many workers do it at once: fewer workers, generous watchdog)
+    "C37": dict(quick=5000, thorough=500000, timeout=900, workers=8),
     "C31": dict(quick=8000, thorough=2000000, timeout=60),
 }
 DEFAULT_PLAN = dict(quick=200, thorough=5000, timeout=120)
